@@ -342,7 +342,9 @@ func listRoOps() []roOp {
 		{"GetTF(#0)", func(s interface{}, _ at.List, _ at.Object) interface{} { return L(s).GetTF("#0") }},
 		{"TypeOfTF(#1)", func(s interface{}, _ at.List, _ at.Object) interface{} { return int(L(s).TypeOfTF("#1")) }},
 		{"FormatString(2)", func(s interface{}, _ at.List, _ at.Object) interface{} { return L(s).FormatString(2) }},
-		{"Sum+IntSlice", func(s interface{}, _ at.List, _ at.Object) interface{} { return fmt.Sprint(L(s).Sum(), L(s).IntSlice()) }},
+		{"Sum+IntSlice", func(s interface{}, _ at.List, _ at.Object) interface{} {
+			return fmt.Sprint(L(s).Sum(), L(s).IntSlice())
+		}},
 	}
 }
 
